@@ -369,6 +369,12 @@ class FormatMachine(MachineBase):
                 raise
             raise Violation(P, "%s.older_document_accepted" % P, "older-document-rejected/%s/%s" % (key, exc_class(e)),
                             {"error": exc_class(e), "msg": str(e)[:200], "via": via, "source": d.get("source")})
+        hdr = getattr(new, "header", None)
+        if hdr is not None and self.HEADER_TYPE is not None and self.watching("C05"):
+            # "converted on load to the current model": the live object is a current-version object from now on
+            if getattr(hdr, "version", None) != self.CURRENT_VERSION:
+                raise Violation("C05", "C05.object_is_current_version_after_load", "loaded-object-keeps-old-version/%s" % self.FORMAT,
+                                {"header.version": getattr(hdr, "version", None), "document_version": ver})
         got = self.observe(new)
         self.count(P, ["legacy", key, via, d.get("source"), self.abstract_expected(got) if d["expected"] is None else self.abstract_expected(d["expected"])])
         if d["expected"] is not None:
